@@ -315,6 +315,11 @@ theorem packed_old_or_new_modes (cd : Codec) (m : Mode) (c : Cfg) (s : Store) (t
     rw [fileAt_congr hr]
     exact hfin
 
+/-- the general step model (the one tied to the real code by the strace correspondence in all
+three modes) coincides in the default mode with the step list the theorems above are about -/
+theorem txnStepsM_default (c : Cfg) (s : Store) (txn : List Edit) : txnStepsM .d c s txn = txnSteps c s txn :=
+  txnStepsM_d c s txn
+
 /-! ### non-vacuity -/
 
 /-- refs/heads/a (loose, also packed with a stale value), refs/tags/t (packed only) -/
